@@ -1,14 +1,8 @@
 (* C14 / C05 -- the two-view machine refines the by-name store (Model/Session.v). *)
-From Aelys Require Import Base.Tactics Extracted.CallCacheConsts Model.Session.
+From Aelys Require Import Base.Tactics Extracted.CallCacheConsts Extracted.ReplShape Model.Session.
 Local Open Scope N_scope.
 
 (* ------------------------------------------------------------------ layouts *)
-Fixpoint nodupb (L : layout) : bool :=
-  match L with
-  | [] => true
-  | Some n :: r => negb (in_layout n r) && nodupb r
-  | None :: r => nodupb r
-  end.
 
 Lemma layout_eqb_eq : forall a b, layout_eqb a b = true -> a = b.
 Proof.
@@ -267,18 +261,25 @@ Proof.
 Qed.
 
 (* entering a function: afterwards its layout is loaded (unless it has none) *)
+Lemma sim_switch T W st s L : sim T W st s -> nodupb L = true ->
+  sim T W (switch_layout st L) s /\ (L = [] \/ cur (switch_layout st L) = L) /\
+  frames (switch_layout st L) = frames st.
+Proof.
+  intros S NL. unfold switch_layout, CALLS_COMPARE_WITH_LOADED_LAYOUT. destruct L as [|a r] eqn:EL.
+  { split; [exact S|]. split; [now left|reflexivity]. }
+  rewrite <- EL in *. destruct (layout_eqb L (cur st)) eqn:E.
+  { apply layout_eqb_eq in E. split; [exact S|]. split; [right; now rewrite E|reflexivity]. }
+  destruct (sim_sync_loaded T W st s S) as [S1 AC].
+  destruct (sim_prepare T W (sync_loaded st) s L S1 AC NL) as (S2 & C2 & _ & F2).
+  split; [exact S2|]. split; [right; exact C2|]. now rewrite F2.
+Qed.
+
 Lemma sim_call_enter T W st s L : sim T W st s -> nodupb L = true ->
   sim T W (call_enter st L) s /\ (L = [] \/ cur (call_enter st L) = L) /\
   frames (call_enter st L) = mkFrame L false :: frames st.
 Proof.
-  intros S NL. unfold call_enter. destruct L as [|a r] eqn:EL.
-  { split; [now apply sim_with_frames|]. split; [now left|reflexivity]. }
-  rewrite <- EL in *. destruct (layout_eqb L (cur st)) eqn:E.
-  { apply layout_eqb_eq in E. split; [now apply sim_with_frames|]. split; [right; now rewrite E|reflexivity]. }
-  destruct (sim_sync_loaded T W st s S) as [S1 AC].
-  destruct (sim_prepare T W (sync_loaded st) s L S1 AC NL) as (S2 & C2 & _ & F2).
-  split; [now apply sim_with_frames|]. split; [right; exact C2|].
-  cbn [frames with_frames]. now rewrite F2.
+  intros S NL. destruct (sim_switch T W st s L S NL) as (S1 & C1 & F1). unfold call_enter.
+  split; [now apply sim_with_frames|]. split; [exact C1|]. cbn [frames with_frames]. now rewrite F1.
 Qed.
 
 (* returning into a caller frame: afterwards the caller's layout is loaded (unless it has none) *)
@@ -287,7 +288,7 @@ Lemma sim_do_return T W st s f c rest : sim T W st s -> frames st = f :: c :: re
   sim T W (do_return st) s /\ (f_lay c = [] \/ cur (do_return st) = f_lay c) /\
   frames (do_return st) = c :: rest.
 Proof.
-  intros S Hf NL. unfold do_return. rewrite Hf.
+  intros S Hf NL. unfold do_return, RETURN_SYNCS_WHEN_LEAVING. rewrite Hf.
   destruct (f_lay c) as [|a r] eqn:EL.
   { cbn [orb]. split; [now apply sim_with_frames|]. split; [now left|reflexivity]. }
   rewrite <- EL in *. destruct (layout_eqb (f_lay c) (cur st)) eqn:E; cbn [negb orb].
@@ -442,7 +443,7 @@ Lemma exec_m_cons f Lf arg st i r :
                   match lookup fid C with
                   | Some fd =>
                       if negb (fd_arity fd =? nargs) then (st, [], SErr)
-                      else if MAX_FRAMES <=? N.of_nat (length (frames st)) then (st, [], SErr)
+                      else if MAX_FRAMES <=? N.of_nat (length (frames st)) then (switch_layout st (fd_layout fd), [], SErr)
                       else
                         let '(st1, out1, s1) := exec_m C f (fd_layout fd) av (call_enter st (fd_layout fd)) (fd_body fd) in
                         match s1 with
@@ -562,7 +563,7 @@ Proof.
                 match lookup fid C with
                 | Some fd =>
                     if negb (fd_arity fd =? nargs) then (st, [], SErr)
-                    else if MAX_FRAMES <=? d then (st, [], SErr)
+                    else if MAX_FRAMES <=? d then (switch_layout st (fd_layout fd), [], SErr)
                     else
                       let '(st1, out1, s1) := exec_m C f (fd_layout fd) av (call_enter st (fd_layout fd)) (fd_body fd) in
                       match s1 with
@@ -603,8 +604,10 @@ Proof.
       destruct (lookup p (s_heap s)) as [[fid|tag ar]|]; try exact ERR.
       - destruct (lookup fid C) as [fd|] eqn:EF; try exact ERR.
         destruct (negb (fd_arity fd =? nargs)); try exact ERR.
-        destruct (MAX_FRAMES <=? d); try exact ERR.
         set (L := fd_layout fd). assert (NL : nodupb L = true) by exact (WF fid fd EF).
+        destruct (MAX_FRAMES <=? d).
+        { destruct (sim_switch T W st s L S NL) as (S1 & _ & F1). rewrite <- F1.
+          exact (corr_err T Lf W (switch_layout st L) s W S1 (sub_refl W)). }
         destruct (sim_call_enter T W st s L S NL) as (S1 & C1 & F1).
         assert (FO1 : frames_ok (frames (call_enter st L))).
         { rewrite F1. intros x [E|Hin]; [subst x; exact NL|exact (FO x Hin)]. }
@@ -740,13 +743,13 @@ Proof.
   intros B NL. destruct (sim_execute T W vm s L B NL) as (S0 & C0 & F0).
   pose proof (exec_sim C WF T fuel L VNull (execute vm L) s W body (mkFrame L true) [] S0 (or_intror C0) F0 eq_refl) as H.
   rewrite F0 in H. specialize (H (frames_ok_single L true NL)). cbn [length] in H. change (N.of_nat 1) with 1 in H.
-  unfold run_unit. destruct (exec_m C fuel L VNull (execute vm L) body) as [[st1 o1] m1].
+  unfold run_unit, RUN_FAST_UNWINDS_ON_ERROR. destruct (exec_m C fuel L VNull (execute vm L) body) as [[st1 o1] m1].
   destruct (exec_s C fuel 1 T L VNull s W body) as [[[s1 W1] o1'] x1]. unfold corr in H.
   destruct x1; auto.
   - destruct H as (Em & Eo & S1 & HC1 & F1 & Hs). subst m1 o1.
     exists (do_return st1). split; [reflexivity|].
     assert (Dr : do_return st1 = with_frames (sync_loaded st1) []).
-    { unfold do_return. rewrite F1. reflexivity. }
+    { unfold do_return, RETURN_SYNCS_WHEN_LEAVING. rewrite F1. reflexivity. }
     destruct (sim_sync_loaded T W1 st1 s1 S1) as [S2 AC]. rewrite Dr.
     split; [|split; [|exact Hs]].
     + apply sim_bnd with (W := W1); [now apply sim_with_frames|exact AC|reflexivity].
@@ -789,16 +792,6 @@ Proof.
   - intro Hne. congruence.
 Qed.
 
-Definition wf_munit (m : munit) : bool :=
-  nodupb (mu_layout m)
-  && (match mu_exports m with [] => true | _ => negb (layout_eqb (mu_layout m) []) end)
-  && forallb (fun e => negb (in_layout (fst e) (mu_layout m)) || (fst e =? snd e)) (mu_exports m).
-
-Definition wf_step (st : step) : bool :=
-  match st with
-  | SInput imports _ L _ _ _ => nodupb L && forallb wf_munit imports
-  | SHost _ _ _ => true
-  end.
 
 Section Steps3.
 Variable C : code.
@@ -839,11 +832,13 @@ Proof.
   destruct x1; auto.
   - destruct H as (vm1 & Er & B1 & C1 & Hs). rewrite Er.
     destruct (existsb (fun e => memb (snd e) T) (mu_exports m)) eqn:Et; [exact I|].
-    assert (B2 : bnd T (sync_loaded vm1) s1) by now apply bnd_sync_loaded.
-    assert (HC : mu_exports m = [] \/ cur (sync_loaded vm1) = mu_layout m).
+    (* the explicit sync before the export registration is redundant: the unit's Return already synced *)
+    set (vm2 := if MODULE_SYNCS_BEFORE_EXPORTS then sync_loaded vm1 else vm1).
+    assert (B2 : bnd T vm2 s1) by (unfold vm2; destruct MODULE_SYNCS_BEFORE_EXPORTS; [now apply bnd_sync_loaded|exact B1]).
+    assert (HC : mu_exports m = [] \/ cur vm2 = mu_layout m).
     { destruct (mu_exports m) as [|e0 er]; [now left|right].
-      destruct C1 as [E|E]; [|exact E]. rewrite E in Hx. cbn in Hx. discriminate. }
-    pose proof (exports_sim T (mu_layout m) (mu_exports m) (sync_loaded vm1) s1 B2 HC He Et) as B3.
+      destruct C1 as [E|E]; [|unfold vm2; destruct MODULE_SYNCS_BEFORE_EXPORTS; exact E]. rewrite E in Hx. cbn in Hx. discriminate. }
+    pose proof (exports_sim T (mu_layout m) (mu_exports m) vm2 s1 B2 HC He Et) as B3.
     specialize (IH _ _ (map fst (mu_exports m) ++ W1) B3 Hr).
     destruct (load_modules_s C fuel T _ (map fst (mu_exports m) ++ W1) r) as [[[s3 W3] o3] x3].
     destruct x3; auto.
@@ -865,7 +860,7 @@ Proof.
   intros (B & Ek & Em) Hw. destruct st as [imports compiles L body newmut imported|n nargs arg].
   - (* a REPL input *)
     cbn [wf_step] in Hw. apply andb_true_iff in Hw as [NL Hi].
-    cbn [xstep mstep].
+    cbn [xstep mstep]. unfold HOST_CALL_CHECKS_ARITY_FIRST, REPL_CLEARS_FRAMES_FIRST, REPL_RECORDS_IMPORTS_AFTER_COMPILE, RUN_FAST_UNWINDS_ON_ERROR.
     pose proof (load_modules_sim (x_taint x) fuel imports (with_frames (d_vm d) []) (x_s x) []
                   (bnd_with_frames_nil _ _ _ B) Hi) as H.
     destruct (load_modules_s C fuel (x_taint x) (x_s x) [] imports) as [[[s1 W1] o1] x1].
@@ -877,20 +872,20 @@ Proof.
         destruct x2; auto.
         -- destruct H2 as (vm2 & E2 & B2 & _ & _). rewrite E2. eexists. split; [reflexivity|].
            split; [|split]; cbn [d_vm d_known d_mut x_s x_taint x_known x_mut]; try congruence.
-           now apply bnd_sync_loaded.
+           destruct REPL_SYNCS_AFTER_SUCCESSFUL_RUN; [now apply bnd_sync_loaded|exact B2].
         -- destruct H2 as (vm2 & E2 & B2). rewrite E2. eexists. split; [reflexivity|].
            split; [|split]; cbn [d_vm d_known d_mut x_s x_taint x_known x_mut]; try congruence.
       * eexists. split; [reflexivity|]. split; [|split]; cbn [d_vm d_known d_mut x_s x_taint x_known x_mut]; auto.
     + destruct H as (vm1 & E1 & B1). rewrite E1. eexists. split; [reflexivity|].
       split; [|split]; cbn [d_vm d_known d_mut x_s x_taint x_known x_mut]; auto.
   - (* a host call *)
-    cbn [xstep mstep]. destruct (memb n (x_taint x)) eqn:Tn; [exact I|].
+    cbn [xstep mstep]. unfold HOST_CALL_CHECKS_ARITY_FIRST, REPL_CLEARS_FRAMES_FIRST, REPL_RECORDS_IMPORTS_AFTER_COMPILE, RUN_FAST_UNWINDS_ON_ERROR. destruct (memb n (x_taint x)) eqn:Tn; [exact I|].
     rewrite (b_map _ _ _ B n Tn).
     destruct (sget (s_store (x_s x)) n) as [|z|p]; try (exists d; split; [reflexivity|split; auto]).
     rewrite (b_heap _ _ _ B).
     destruct (lookup p (s_heap (x_s x))) as [[fid|tag ar]|]; try (exists d; split; [reflexivity|split; auto]).
     + destruct (lookup fid C) as [fd|] eqn:EF; try (exists d; split; [reflexivity|split; auto]).
-      destruct (negb (fd_arity fd =? nargs)); try (exists d; split; [reflexivity|split; auto]).
+      destruct (negb (fd_arity fd =? nargs)); [eexists; split; [reflexivity|split; [exact B|split; [exact Ek|exact Em]]]|].
       set (Lc := fd_layout fd). assert (NL : nodupb Lc = true) by exact (WF fid fd EF).
       destruct (sim_prepare (x_taint x) [] (d_vm d) (x_s x) Lc (bnd_sim _ [] _ _ B) (b_map _ _ _ B) NL) as (S1 & C1 & _ & F1).
       set (vm1 := with_frames (prepare (d_vm d) Lc) (mkFrame Lc true :: frames (prepare (d_vm d) Lc))).
@@ -905,7 +900,7 @@ Proof.
       unfold corr in H. destruct x1; auto.
       * destruct H as (Emm & Eo & S2 & _ & F2 & _). subst m1 o1. eexists. split; [reflexivity|].
         split; [|split]; cbn [d_vm d_known d_mut x_s x_taint x_known x_mut]; auto.
-        assert (Dr : do_return st1 = with_frames (sync_loaded st1) []) by (unfold do_return; rewrite F2; reflexivity).
+        assert (Dr : do_return st1 = with_frames (sync_loaded st1) []) by (unfold do_return, RETURN_SYNCS_WHEN_LEAVING; rewrite F2; reflexivity).
         rewrite Dr. destruct (sim_sync_loaded _ _ _ _ S2) as [S3 AC].
         apply sim_bnd with (W := W1); [now apply sim_with_frames|exact AC|reflexivity].
       * destruct H as (Emm & Eo & S2 & (ext & Fe & Ne) & _). subst m1 o1. eexists. split; [reflexivity|].
@@ -1080,7 +1075,6 @@ Qed.
 End Failure.
 
 (* ------------------------------------------------------------------ decidable well-formedness, an example *)
-Definition wf_codeb (C : code) : bool := forallb (fun e => nodupb (fd_layout (snd e))) C.
 
 Lemma lookup_in {A} : forall (l : list (N * A)) k v, lookup k l = Some v -> In (k, v) l.
 Proof.
